@@ -68,7 +68,11 @@ impl RestorePlan {
 
                     paths.reserve_exact(1);
                     paths.push(path.clone());
-                    to_restore.insert(path, RestoringFile {hash, size, paths});
+
+                    if to_restore.insert(path.clone(), RestoringFile {hash, size, paths}).is_some() {
+                        error!("The backup metadata contains several records for {:?}.", path);
+                        ok = false;
+                    }
                 }
             } else {
                 if to_find.is_empty() {
